@@ -112,11 +112,17 @@ Definition oos (s : lst) : lst * list lobs :=
   ({| p_ph := p_ph s; p_open := p_open s; p_port := p_port s; p_oos := true |}, []).
 
 (* what listen() makes of create()'s outcome *)
-Definition on_done (s : lst) (m' : DescUpload.st) (evs : list Spec.C15.obs) : lst * list lobs :=
+(* TorOnionAddress.onion_uri / endpoint.onion_uri: for an authenticated service _maybe_unique_host() gives the
+   clients' common hostname and raises if they differ (address: None); they differ exactly for stealth
+   authentication with more than one client *)
+Definition host_reported (c : cfg) (q : req) : bool :=
+  negb ((match q_auth q with AStealth => true | _ => false end) && g_two_clients c).
+
+Definition on_done (hok : bool) (s : lst) (m' : DescUpload.st) (evs : list Spec.C15.obs) : lst * list lobs :=
   match dones evs with
   | [] => ({| p_ph := PCreate m'; p_open := p_open s; p_port := false; p_oos := p_oos s |}, [])
   | ROk _ :: _ => ({| p_ph := POver true; p_open := true; p_port := true; p_oos := p_oos s |},
-                   [OResult (LOk true true true)])
+                   [OResult (LOk hok true true)])
   | RUploadFailed :: _ => fail_now FUploads true
   | RRejected :: _ => fail_now FRejected true
   | ROther _ :: _ => fail_now (FOther 0) true
@@ -132,7 +138,7 @@ Definition lstep_model (c : cfg) (q : req) (s : lst) (o : lop) : lst * list lobs
       | (Reply | Reject), Some _ =>                        (* no command left to answer *)
           ({| p_ph := PCreate (fst (DescUpload.step c15cfg m d)); p_open := p_open s; p_port := p_port s;
               p_oos := p_oos s |}, [ONoop])
-      | _, _ => let '(m', evs) := DescUpload.step c15cfg m d in on_done s m' evs
+      | _, _ => let '(m', evs) := DescUpload.step c15cfg m d in on_done (host_reported c q) s m' evs
       end
   | PCreate m, LDisconnect =>
       match m_rep m with
